@@ -67,7 +67,7 @@ def check(prog, rep):
                 tgt, val = n.targets[0].id, n.value
             elif isinstance(n, ast.AnnAssign) and isinstance(n.target, ast.Name):
                 tgt, val = n.target.id, n.value
-            if tgt and isinstance(val, (ast.Dict, ast.List, ast.Set)) and not tgt.isupper() and tgt != "__all__":
+            if tgt and isinstance(val, (ast.Dict, ast.List, ast.Set)) and tgt != "__all__":
                 containers[(m.name, tgt)] = n
     writers = {}
     for fi in prog.functions.values():
@@ -81,9 +81,40 @@ def check(prog, rep):
                 tgtname = n.func.value.id
             if tgtname and (fi.module.name, tgtname) in containers and tgtname not in local_assignments(fi.node):
                 writers.setdefault((fi.module.name, tgtname), []).append(fi)
+    def consulted(key):
+        """some function of the package reads entries of the container (lookup, membership, iteration) -- handing out a
+        copy for diagnostics and bumping a counter do not count"""
+        from ..astutil import parent as _par
+        for fi in prog.functions.values():
+            if fi.module.name != key[0] or key[1] in local_assignments(fi.node):
+                continue
+            for n in walk_local(fi.node):
+                if not (isinstance(n, ast.Name) and n.id == key[1] and isinstance(n.ctx, ast.Load)):
+                    continue
+                p_ = _par(n)
+                if isinstance(p_, ast.Subscript) and p_.value is n:
+                    if isinstance(p_.ctx, (ast.Store, ast.Del)):
+                        continue
+                    if isinstance(_par(p_), ast.AugAssign) and _par(p_).target is p_:
+                        continue
+                    return True
+                if isinstance(p_, ast.Attribute) and p_.value is n:
+                    if p_.attr in ("append", "update", "add", "setdefault", "pop", "clear", "extend", "copy"):
+                        if p_.attr in ("setdefault", "pop"):
+                            return True
+                        continue
+                    return True
+                if isinstance(p_, ast.Call) and n in p_.args and (dotted(p_.func) or "") in ("dict", "list", "tuple", "len", "sorted") and isinstance(_par(p_), ast.Return):
+                    continue
+                return True
+        return False
+
     for key, node in sorted(containers.items()):
         ws = writers.get(key, [])
         import_time = all(_only_called_at_import(prog, w) for w in ws)
+        if ws and not import_time and not consulted(key):
+            rep.ob("R14.1", f"{key[0]}.{key[1]}", True, f"module-level container written at run time by {[w.name for w in ws]} but never consulted by package code (counters / diagnostics)", loc=f"{prog.modules[key[0]].rel}:{node.lineno}", detail="module-container", trivial=True)
+            continue
         rep.ob("R14.1", f"{key[0]}.{key[1]}", import_time or not ws,
                f"module-level container; written only at import time by {[w.name for w in ws]}" if ws else "module-level container, never written by package code",
                loc=f"{prog.modules[key[0]].rel}:{node.lineno}", detail="module-container") if (import_time or not ws) else rep.ob(
